@@ -32,6 +32,36 @@ THIS_FILE = os.path.abspath(__file__)
 OS_FILES = (os.path.abspath(os.__file__), '<frozen os>')
 
 
+class CodeSet(object):
+    """The code objects of the entry point and of the helpers inlined in its skeleton.  Helpers are given as
+    'pydl/x/y.py:name' and matched by file and function name when first seen, so that nothing has to be imported to
+    resolve them (a fresh-interpreter run must not import anything the user's script would not)."""
+
+    def __init__(self, codes=(), specs=()):
+        self.codes = set(codes)
+        self.specs = set((os.path.normpath(s.split(':', 1)[0]), s.split(':', 1)[1]) for s in specs if '.' not in s.split(':', 1)[1])
+        self.no = set()
+
+    def add(self, code):
+        self.codes.add(code)
+
+    def __bool__(self):
+        return True
+
+    def __contains__(self, code):
+        if code in self.codes:
+            return True
+        if code in self.no or not self.specs:
+            return False
+        fn = os.path.normpath(code.co_filename)
+        for rel, name in self.specs:
+            if code.co_name == name and fn.endswith(os.sep + rel) and code.co_qualname == name:
+                self.codes.add(code)
+                return True
+        self.no.add(code)
+        return False
+
+
 class TracingEnviron(object):
     """Wraps the real os.environ mapping; records operations on the watched variables made by the target code and
     every write made by anybody else."""
@@ -39,7 +69,7 @@ class TracingEnviron(object):
     def __init__(self, real, watched, codes=()):
         object.__setattr__(self, '_real', real)
         object.__setattr__(self, '_watched', set(watched))
-        object.__setattr__(self, '_codes', set(codes))
+        object.__setattr__(self, '_codes', codes)
         object.__setattr__(self, 'trace', [])
         object.__setattr__(self, 'foreign_writes', [])
 
@@ -47,7 +77,7 @@ class TracingEnviron(object):
         f = sys._getframe(1)
         while f is not None and (f.f_code.co_filename in OS_FILES or os.path.abspath(f.f_code.co_filename) in (THIS_FILE,) + OS_FILES):
             f = f.f_back
-        own = (not self._codes) or (f is not None and f.f_code in self._codes)
+        own = f is not None and f.f_code in self._codes
         if own:
             if key in self._watched or kind != 'get':
                 self.trace.append([kind, key, bool(ok)])
@@ -119,12 +149,17 @@ class TracingEnviron(object):
 class Injector(object):
     """sys.settrace-based: raises InjectedFault inside the k-th call whose caller frame is a target code object."""
 
-    def __init__(self, target_codes, k):
-        self.codes = set(target_codes)
+    def __init__(self, target_codes, k, k2=None, exc_class=None):
+        self.codes = target_codes
         self.k = k
+        self.k2 = k2              # second fault: the k2-th eligible call AFTER the first fault fired (handlers, finally blocks)
+        self.exc_class = exc_class or InjectedFault
         self.count = 0
+        self.after = 0            # eligible calls seen after the first fault (made by handlers / finally blocks)
         self.fired_at = None
+        self.fired2_at = None
         self.names = []
+        self.after_names = []
 
     def tracer(self, frame, event, arg):
         if event != 'call':
@@ -132,19 +167,38 @@ class Injector(object):
         back = frame.f_back
         if back is None or back.f_code not in self.codes:
             return None
-        if frame.f_code in self.codes or frame.f_code.co_filename == __file__:
+        if frame.f_code in self.codes or frame.f_code.co_filename in (__file__, THIS_FILE):
             return None        # the helper itself is "inlined", calls made by it are counted instead
+        if self.fired_at is not None:
+            j = self.after
+            self.after += 1
+            self.after_names.append('%s@%s:%d' % (frame.f_code.co_name, os.path.basename(back.f_code.co_filename), back.f_lineno))
+            if self.k2 is not None and j == self.k2 and self.fired2_at is None:
+                self.fired2_at = self.after_names[-1]
+                return self._raiser2
+            return None
         idx = self.count
         self.count += 1
         self.names.append(frame.f_code.co_name)
         if self.k is not None and idx == self.k:
             self.fired_at = '%s@%s:%d' % (frame.f_code.co_name, os.path.basename(back.f_code.co_filename), back.f_lineno)
+            # an exception raised by a trace function switches tracing off: a profile hook switches it on again at the
+            # next event (the unwinding of the callee), so that calls made by handlers and finally blocks are still seen
+            sys.setprofile(self._reinstall)
             return self._raiser
         return None
 
+    def _reinstall(self, frame, event, arg):
+        if sys.gettrace() is None:
+            sys.settrace(self.tracer)
+        sys.setprofile(None)
+
     def _raiser(self, frame, event, arg):
         # first 'line' event inside the callee: raise there, it propagates into the target function
-        raise InjectedFault('injected at call #%d' % self.k)
+        raise self.exc_class('injected at call #%d' % self.k)
+
+    def _raiser2(self, frame, event, arg):
+        raise InjectedFault('second fault, injected at call #%d after the first' % self.k2)
 
 
 def optional_keywords(partext):
@@ -182,8 +236,9 @@ def optional_keywords(partext):
     return keys
 
 
-def make_inputs(workdir):
-    """Small, valid inputs so that both entry points run to completion without faults."""
+def make_inputs(workdir, fresh=False):
+    """Small, valid inputs so that both entry points run to completion without faults.  fresh: nothing of pydl may be
+    imported here (the files were made by an earlier, ordinary run)."""
     from astropy.io import fits
     os.makedirs(workdir, exist_ok=True)
     # window_flist.fits with every column sdss_score reads, and the fpFieldStat / psField files of each field under
@@ -260,8 +315,8 @@ typedef struct {
     # keywords the code looks up in the parameter file that the files above do not have (optional keywords):
     # a third file sets every one of them, so that code guarded by `'key' in par` runs too
     par_opt = os.path.join(workdir, 'tmpl_opt.par')
-    opt = optional_keywords(open(par).read())
-    if not os.path.exists(par_opt):
+    opt = [] if fresh else optional_keywords(open(par).read())
+    if not os.path.exists(par_opt) and not fresh:
         txt = open(par).read().replace('run1d v8_8_8\n', 'run1d v8_8_8\n' + ''.join('%s %s\n' % (k, workdir) for k in opt))
         open(par_opt, 'w').write(txt)
     dump = os.path.join(workdir, 'tmpl.dump')
@@ -284,6 +339,34 @@ def snapshot():
 
 _ORIG = {}
 
+# initial values of a touched variable, by label (resolved here so that replay files and reports stay small and
+# printable): lengths around typical fixed-width fields, characters that need care in a byte-for-byte comparison
+VALUE_LABELS = {
+    '@len1': 'x',
+    '@len16': 'v5_13_2-abcdefgh',
+    '@len17': 'v5_13_2-abcdefghi',
+    '@len64': 'v5_13_2-' + 'templates-2024-rerun/' * 2 + 'abcdefghijklmn',
+    '@len4096': 'L' * 4000 + '0123456789abcdef' * 6,
+    '@nonascii': 'trunk-étoiles-αβγ-星-\U0001f52d',
+    '@eqsp': 'a=b = c  d=',
+    '@trail': 'v5_13_2 \t',
+    '@lead': '  v5_13_2',
+    '@newline': 'v5_13_2\nRUN2D=injected',
+    '@bytes': 'v5-\udcff\udcfe-raw',          # bytes ff fe (not UTF-8) through surrogateescape
+    '@zero': '0',
+    '@none': 'None',
+}
+assert len(VALUE_LABELS['@len16']) == 16 and len(VALUE_LABELS['@len17']) == 17 and len(VALUE_LABELS['@len64']) == 64 \
+    and len(VALUE_LABELS['@len4096']) == 4096
+
+
+def show(v):
+    """printable, bounded form of an environment value for reports (the comparison itself is on the real strings)"""
+    if v is None:
+        return None
+    t = v.encode('ascii', 'backslashreplace').decode('ascii')
+    return t if len(t) <= 120 else '%s...%s (length %d)' % (t[:40], t[-20:], len(v))
+
 
 def resolve_function(spec):
     """'pydl/photoop/window.py:sdss_score' -> the function object (None if it is not a plain module-level function)"""
@@ -301,53 +384,161 @@ def resolve_function(spec):
         return None
 
 
-def one_run(target, paths, watched, run, workdir, inlined=()):
+def exception_class(name, module=None):
+    """the exception class a handler names: a builtin, or a name of the entry point's module (PhotoopException ...)"""
+    import builtins
+    for ns in (builtins, module):
+        c = getattr(ns, name or '', None) if ns is not None else None
+        if isinstance(c, type) and issubclass(c, Exception):
+            try:
+                c('probe')
+            except Exception:   # noqa: BLE001
+                continue
+            return c
+    return None
+
+
+def damaged_copy(src, state, dst):
+    """file states for natural failures: missing / empty / garbage / truncated / a directory in its place"""
+    if os.path.isdir(dst) and not os.path.islink(dst):
+        import shutil
+        shutil.rmtree(dst)
+    elif os.path.exists(dst):
+        os.remove(dst)
+    if state == 'missing':
+        return dst
+    if state == 'isdir':
+        os.makedirs(dst)
+        return dst
+    data = open(src, 'rb').read()
+    if state == 'empty':
+        data = b''
+    elif state == 'garbage':
+        data = bytes((i * 37 + 11) % 256 for i in range(3000))
+    elif state == 'truncated':
+        data = data[:max(1, len(data) // 2 + 7)]
+    elif state == 'text':
+        data = b'this is not a parameter file { ;\n' * 3
+    with open(dst, 'wb') as f:
+        f.write(data)
+    return dst
+
+
+def par_variant(paths, kind, workdir):
+    """parameter files that fail naturally: before the export (a required keyword missing, unparsable number, no file,
+    a directory, an empty file, binary junk) or after it (HMF keywords missing or invalid, no EIGENOBJ rows used later)"""
+    base = open(paths['par']).read()
+    d = os.path.join(workdir, 'parvariants-%d' % os.getpid())
+    os.makedirs(d, exist_ok=True)
+    dst = os.path.join(d, kind + '.par')
+    if kind in ('missing', 'isdir', 'empty', 'garbage', 'truncated'):
+        return damaged_copy(paths['par'], kind, dst)
+    if kind == 'early':
+        txt = base.replace('niter 1\n', '')
+    elif kind == 'badvalue':
+        txt = base.replace('nkeep 4\n', 'nkeep four\n')
+    elif kind == 'norun1d':
+        txt = base.replace('run1d v8_8_8\n', '')
+    elif kind == 'badhmf':
+        txt = base.replace('method pca', 'method hmf').replace('run1d v8_8_8\n', 'run1d v8_8_8\nepsilon -1.0\n')
+    elif kind == 'badhmfvalue':
+        txt = base.replace('method pca', 'method hmf').replace('run1d v8_8_8\n', 'run1d v8_8_8\nnonnegative maybe\nepsilon -1.0\n')
+    elif kind == 'badmethod':
+        txt = base.replace('method pca', 'method nosuchmethod')
+    elif kind == 'norows':
+        txt = base[:base.index('EIGENOBJ 3')] if 'EIGENOBJ 3' in base else base
+    else:
+        raise ValueError(kind)
+    open(dst, 'w').write(txt)
+    return dst
+
+
+def one_run(target, paths, watched, run, workdir, inlined=(), fresh=False):
     real_environ = os.environ
+    args = run.get('args', {})
+    if run.get('minimal_env'):
+        keep = set(run.get('keep') or ()) | {'PATH', 'PYTHONPATH', 'PYTHONHASHSEED', 'HOME', 'MPLBACKEND', 'MPLCONFIGDIR', 'TMPDIR'}
+        for k in list(real_environ):
+            if k not in keep:
+                del real_environ[k]
     # initial state of the touched variables and of the variables reachable code reads
     for v, val in run['init'].items():
         if val is None:
             real_environ.pop(v, None)
         else:
             real_environ[v] = val
-    before = dict(real_environ)
-    import pydl.photoop.window as W
-    import pydl.pydlspec2d.spec1d as S
-    args = run.get('args', {})
-    if 'sdss_score' not in _ORIG:
-        _ORIG['sdss_score'] = W.sdss_score
-    W.sdss_score = _ORIG['sdss_score']
+    extra_report = {}
+    if fresh:
+        # a fresh interpreter: import ONLY the entry point's own module, the way a user's script does
+        import importlib
+        loaded0 = sorted(m for m in sys.modules if m == 'pydl' or m.startswith('pydl.'))
+        env0 = dict(real_environ)
+        mod = importlib.import_module(run['module'])
+        env1 = dict(real_environ)
+        extra_report['pydl_modules_before_import'] = loaded0
+        extra_report['import_env_diff'] = dict((k, [show(env0.get(k)), show(env1.get(k))]) for k in set(env0) | set(env1) if env0.get(k) != env1.get(k))
+        W = S = mod
+        sd = sys.modules.get('pydl.pydlutils.sdss')
+        if sd is not None and getattr(sd, 'maskbits', 1) is None:
+            sd.maskbits = MASKBITS
+    else:
+        import pydl.photoop.window as W
+        import pydl.pydlspec2d.spec1d as S
     if target in ('window_score', 'window_read'):
-        codes = [W.window_score.__code__]
-        rescore_file = os.path.join(paths['resolve'], 'window_flist_rescore.fits')
+        if 'sdss_score' not in _ORIG:
+            _ORIG['sdss_score'] = W.sdss_score
+        W.sdss_score = _ORIG['sdss_score']
+        codes = CodeSet([W.window_score.__code__])
+        fstate = args.get('flist_state')
+        if fstate and real_environ.get('PHOTO_RESOLVE'):
+            bad = os.path.join(paths['resolve'], 'damaged-' + fstate)
+            os.makedirs(bad, exist_ok=True)
+            damaged_copy(os.path.join(paths['resolve'], 'window_flist.fits'), fstate, os.path.join(bad, 'window_flist.fits'))
+            real_environ['PHOTO_RESOLVE'] = bad
+        rescore_file = os.path.join(real_environ.get('PHOTO_RESOLVE') or paths['resolve'], 'window_flist_rescore.fits')
         if os.path.exists(rescore_file):
             os.remove(rescore_file)
         if target == 'window_score':
             kwargs = {'rescore': bool(args.get('rescore', False))}
+            kwargs.update(args.get('kwargs') or {})
             call = lambda: W.window_score(**kwargs)   # noqa: E731
         else:
-            codes.append(W.window_read.__code__)
-            call = lambda: W.window_read(flist=True, rescore=True)   # noqa: E731
+            codes.add(W.window_read.__code__)
+            kwargs = {'flist': True, 'rescore': True}
+            kwargs.update(args.get('kwargs') or {})
+            call = lambda: W.window_read(**kwargs)   # noqa: E731
         # sdss_score in the repository calls a function that does not exist in numpy 2; give it a
         # chance to succeed so that the straight-line path is explored too (stub only when asked)
         if args.get('stub_score', True):
             W.sdss_score = lambda flist, silent=True: np.ones(len(flist[1].data), dtype='f4')
     else:
-        codes = [S.template_input.__code__, S.template_metadata.__code__]
+        codes = CodeSet([S.template_input.__code__, S.template_metadata.__code__])
         for extra in ('_template_input',):
             if hasattr(S, extra):
-                codes.append(getattr(S, extra).__code__)
+                codes.add(getattr(S, extra).__code__)
         parfile = paths['par_hmf'] if args.get('method') == 'hmf' else paths['par']
         if args.get('optional_keywords'):
             parfile = paths['par_opt']
+        if args.get('parfile'):
+            parfile = par_variant(paths, args['parfile'], workdir)
         # nodump: no intermediate file, the spectra are looked up through readspec (which reads the environment)
         dump = os.path.join(workdir, 'no-such-dump-%d' % os.getpid()) if args.get('nodump') else paths['dump']
-        call = lambda: S.template_input(parfile, dump, flux=bool(args.get('flux', False)), verbose=False)   # noqa: E731
-    for spec in inlined:
-        f = resolve_function(spec)
-        if f is not None and hasattr(f, '__code__') and f.__code__ not in codes:
-            codes.append(f.__code__)
+        if args.get('dumpfile'):
+            dump = damaged_copy(paths['dump'], args['dumpfile'], os.path.join(workdir, 'dump-%s-%d' % (args['dumpfile'], os.getpid())))
+        kwargs = {'flux': bool(args.get('flux', False)), 'verbose': False}
+        kwargs.update(args.get('kwargs') or {})
+        call = lambda: S.template_input(parfile, dump, **kwargs)   # noqa: E731
+    if fresh:
+        codes.specs |= CodeSet((), inlined).specs
+    else:
+        for spec in inlined:
+            f = resolve_function(spec)
+            if f is not None and hasattr(f, '__code__'):
+                codes.add(f.__code__)
+    before = dict(real_environ)
+    loaded1 = set(m for m in sys.modules if m == 'pydl' or m.startswith('pydl.'))
     tr = TracingEnviron(real_environ, watched, codes)
-    inj = Injector(codes, run.get('fault'))
+    inj = Injector(codes, run.get('fault'), run.get('fault2'), exception_class(run.get('fault_class'), S if target == 'template_input' else W))
     real_putenv, real_unsetenv = os.putenv, os.unsetenv
 
     def from_os_module():
@@ -375,21 +566,40 @@ def one_run(target, paths, watched, run, workdir, inlined=()):
             call()
         finally:
             sys.settrace(None)
+            sys.setprofile(None)
     except BaseException as e:  # noqa: BLE001
         outcome = 'raised'
-        exc = '%s: %s' % (type(e).__name__, str(e)[:100])
+        exc = '%s: %s' % (type(e).__name__, show(str(e)[:100]))
     finally:
         os.environ = real_environ
         os.putenv, os.unsetenv = real_putenv, real_unsetenv
         os.chdir(cwd)
     after = dict(real_environ)
+    # verbose=True switches the (process-wide) astropy logger to DEBUG: put it back for the next run of this process
+    lg = sys.modules.get('astropy')
+    if lg is not None and getattr(lg, 'log', None) is not None:
+        try:
+            lg.log.setLevel('INFO')
+        except Exception:   # noqa: BLE001
+            pass
     diff = {}
     for k in set(before) | set(after):
-        if before.get(k) != after.get(k):
-            diff[k] = [before.get(k), after.get(k)]
-    return {'outcome': outcome, 'exc': exc, 'env_diff': diff, 'trace': tr.trace, 'ncalls': inj.count,
-            'foreign_writes': tr.foreign_writes, 'presence': dict((e[1], e[1] in before) for e in tr.trace),
-            'fired_at': inj.fired_at, 'call_names': inj.names if run.get('want_names') else None}
+        if before.get(k) != after.get(k):      # str equality = byte equality (surrogateescape is a bijection)
+            diff[k] = [show(before.get(k)), show(after.get(k))]
+    if fresh:
+        extra_report['pydl_modules_before_call'] = sorted(loaded1)
+        extra_report['pydl_modules_imported_by_call'] = sorted(m for m in sys.modules if (m == 'pydl' or m.startswith('pydl.')) and m not in loaded1)
+    res = {'outcome': outcome, 'exc': exc, 'env_diff': diff, 'trace': tr.trace, 'ncalls': inj.count,
+           'foreign_writes': tr.foreign_writes, 'presence': dict((e[1], e[1] in before) for e in tr.trace),
+           'fired_at': inj.fired_at, 'call_names': inj.names if run.get('want_names') else None,
+           'ncalls_after': inj.after, 'after_names': inj.after_names[:8], 'fired2_at': inj.fired2_at}
+    res.update(extra_report)
+    return res
+
+
+MASKBITS = {'IMAGE_STATUS': {'CLEAR': 0, 'CLOUDY': 1, 'UNKNOWN': 2, 'FF_PETALS': 3, 'DEAD_CCD': 4,
+                             'NOISY_CCD': 5, 'BAD_ROTATOR': 6, 'BAD_ASTROM': 7, 'BAD_FOCUS': 8,
+                             'SHUTTERS': 9}}
 
 
 def main():
@@ -399,27 +609,32 @@ def main():
     sys.stdout = sys.stderr
     req = json.load(sys.stdin)
     workdir = req['workdir']
-    paths = make_inputs(workdir)
+    fresh = bool(req.get('fresh'))
+    paths = make_inputs(workdir, fresh)
     # a private copy of the resolve directory for this process: window_score writes into it
     import shutil
     private = os.path.join(workdir, 'resolve-p%d' % os.getpid())
     os.makedirs(private, exist_ok=True)
     shutil.copy(os.path.join(paths['resolve'], 'window_flist.fits'), os.path.join(private, 'window_flist.fits'))
     paths = dict(paths, resolve=private)
-    import pydl
-    out = {'pydl_file': pydl.__file__, 'paths': paths, 'results': []}
-    import matplotlib
-    matplotlib.use('Agg')
-    # the scoring stage needs the IMAGE_STATUS maskbits, which pydl downloads on first use (no network here): give the
-    # cache the documented bit numbers of that mask (best effort; without it the real sdss_score ends at the download)
-    try:
-        import pydl.pydlutils.sdss as SD
-        if SD.maskbits is None:
-            SD.maskbits = {'IMAGE_STATUS': {'CLEAR': 0, 'CLOUDY': 1, 'UNKNOWN': 2, 'FF_PETALS': 3, 'DEAD_CCD': 4,
-                                            'NOISY_CCD': 5, 'BAD_ROTATOR': 6, 'BAD_ASTROM': 7, 'BAD_FOCUS': 8,
-                                            'SHUTTERS': 9}}
-    except Exception:   # noqa: BLE001
-        pass
+    out = {'paths': paths, 'results': []}
+    if fresh:
+        # no pydl module may be loaded by the harness itself; the backend is chosen through the environment
+        os.environ.setdefault('MPLBACKEND', 'Agg')
+        assert not [m for m in sys.modules if m == 'pydl' or m.startswith('pydl.')], 'harness imported pydl before a fresh run'
+    else:
+        import pydl
+        out['pydl_file'] = pydl.__file__
+        import matplotlib
+        matplotlib.use('Agg')
+        # the scoring stage needs the IMAGE_STATUS maskbits, which pydl downloads on first use (no network here): give the
+        # cache the documented bit numbers of that mask (best effort; without it the real sdss_score ends at the download)
+        try:
+            import pydl.pydlutils.sdss as SD
+            if SD.maskbits is None:
+                SD.maskbits = MASKBITS
+        except Exception:   # noqa: BLE001
+            pass
     for run in req['runs']:
         init = dict(run['init'])
         for v, val in list(init.items()):
@@ -427,9 +642,18 @@ def main():
             if val == '@dir' or (v == 'PHOTO_RESOLVE' and val is not None):
                 init[v] = paths['resolve'] if v == 'PHOTO_RESOLVE' else paths['redux'] if v == 'PHOTO_REDUX' \
                     else os.path.join(workdir, 'env', v.lower())
+            elif val in VALUE_LABELS:
+                init[v] = VALUE_LABELS[val]
         run = dict(run, init=init)
-        out['results'].append(one_run(req['target'], paths, req['vars'], run, workdir, req.get('inlined') or ()))
+        if os.environ.get('C20_DEBUG'):
+            open(os.path.join(workdir, 'current-%d.json' % os.getpid()), 'w').write(json.dumps([req['target'], run]))
+        out['results'].append(one_run(req['target'], paths, req['vars'], run, workdir, req.get('inlined') or (), fresh))
     shutil.rmtree(private, ignore_errors=True)
+    shutil.rmtree(os.path.join(workdir, 'parvariants-%d' % os.getpid()), ignore_errors=True)
+    for f in os.listdir(workdir):
+        if f.startswith('dump-') and f.endswith('-%d' % os.getpid()):
+            q = os.path.join(workdir, f)
+            shutil.rmtree(q, ignore_errors=True) if os.path.isdir(q) else os.remove(q)
     json.dump(out, real_out)
     real_out.flush()
 
